@@ -445,6 +445,25 @@ def _impl_one(case):
         signal.setitimer(signal.ITIMER_VIRTUAL, 0)
 
 
+def guarded_impl(plugin, case):
+    """plugin.impl(case) under the per-case CPU budget (also in the main process: shrinking and
+    replays must not hang on a change that makes the implementation loop)."""
+    import signal
+
+    budget = float(getattr(plugin, "CASE_CPU_SECONDS", 120))
+    old_handler = signal.signal(signal.SIGVTALRM, _alarm)
+    signal.setitimer(signal.ITIMER_VIRTUAL, budget)
+    try:
+        return plugin.impl(case)
+    except CaseTimeout:
+        return {"out": {"exception": "CaseTimeout"}, "exception": "CaseTimeout: more than %ss of CPU" % budget}
+    except BaseException as ex:  # pylint: disable=broad-except
+        return {"out": {"exception": type(ex).__name__}, "exception": "%s: %s" % (type(ex).__name__, ex)}
+    finally:
+        signal.setitimer(signal.ITIMER_VIRTUAL, 0)
+        signal.signal(signal.SIGVTALRM, old_handler)
+
+
 def _impl_one_inner(case):
     try:
         res = _PLUGIN.impl(case)
@@ -472,10 +491,7 @@ def _encode(plugin, case, res=None):
     the real run (packets, oracle answers, set orders) define encode_with(case, res)."""
     if hasattr(plugin, "encode_with"):
         if res is None:
-            try:
-                res = plugin.impl(case)
-            except BaseException as ex:  # pylint: disable=broad-except
-                res = {"out": {"exception": type(ex).__name__}}
+            res = guarded_impl(plugin, case)
         return plugin.encode_with(case, res)
     return plugin.encode(case)
 
@@ -621,6 +637,8 @@ def run_property(modname, tier, seed, replay=None, n_override=None):
     sig_count = {}
     last = None
 
+    MAX_TIMEOUTS = int(getattr(plugin, "MAX_TIMEOUTS", 24))
+    n_timeouts, stop_after_batch = 0, False
     ctx = mp.get_context("fork")
     with ctx.Pool(NCPU, initializer=_init_worker, initargs=(modname,)) as pool:
         batch_no = 0
@@ -629,11 +647,24 @@ def run_property(modname, tier, seed, replay=None, n_override=None):
             if not bc:
                 break
             chunk = max(1, min(200, len(bc) // (NCPU * 4) or 1))
-            b_res = pool.map(_impl_one, bc, chunksize=chunk)
+            b_res = []
+            for r in pool.imap(_impl_one, bc, chunksize=chunk):
+                b_res.append(r)
+                if str(r[0].get("exception", "")).startswith("CaseTimeout"):
+                    n_timeouts += 1
+                    if n_timeouts >= MAX_TIMEOUTS:
+                        break
+            if n_timeouts >= MAX_TIMEOUTS:
+                # the implementation hangs on many inputs: stop exploring, report what was seen
+                say("[%s] %d cases exceeded their CPU budget: exploration stopped after %d cases"
+                    % (pid, n_timeouts, total + len(b_res)))
+                pool.terminate()
+                bc = bc[: len(b_res)]
+                stop_after_batch = True
             b_enc = b_mo = None
             if binary is not None:
                 b_enc = [_encode(plugin, c, b_res[i][0]) for i, c in enumerate(bc)]
-                b_mo = run_model(binary, b_enc, pool)
+                b_mo = run_model(binary, b_enc, None if stop_after_batch else pool)
             for j, c in enumerate(bc):
                 res, why, nt = b_res[j]
                 k = plugin.key(c) if hasattr(plugin, "key") else json.dumps(c, sort_keys=True)
@@ -674,6 +705,8 @@ def run_property(modname, tier, seed, replay=None, n_override=None):
                     last = (c, b_res[j], b_enc[j] if b_enc is not None else None, b_mo[j] if b_mo is not None else None)
             total += len(bc)
             batch_no += 1
+            if stop_after_batch:
+                break
             if tier == "thorough" and batch_no > 1:
                 say("[%s] ... %d cases so far (%d mismatches, %d oracle failures)" % (pid, total, n_mismatch, n_oracle_fail))
     if last is not None:
@@ -697,10 +730,9 @@ def run_property(modname, tier, seed, replay=None, n_override=None):
 
     def fails(case):
         """does the PROPERTY fail on the implementation for this case?"""
-        try:
-            r = plugin.impl(case)
-        except BaseException as ex:  # pylint: disable=broad-except
-            r = {"out": {"exception": type(ex).__name__}, "exception": str(ex)}
+        r = guarded_impl(plugin, case)
+        if str(r.get("exception", "")).startswith("CaseTimeout"):
+            return "implementation did not finish within its CPU-time budget"
         try:
             return plugin.oracle(case, r)
         except BaseException as ex:  # pylint: disable=broad-except
@@ -710,12 +742,13 @@ def run_property(modname, tier, seed, replay=None, n_override=None):
         if not hasattr(plugin, "shrink"):
             return case
         budget = 400
+        deadline = time.time() + float(getattr(plugin, "SHRINK_SECONDS", 240))
         progress = True
-        while progress and budget > 0:
+        while progress and budget > 0 and time.time() < deadline:
             progress = False
             for cand in plugin.shrink(case):
                 budget -= 1
-                if budget <= 0:
+                if budget <= 0 or time.time() > deadline:
                     break
                 if pred(cand):
                     case = cand
@@ -764,18 +797,12 @@ def run_property(modname, tier, seed, replay=None, n_override=None):
         i = mismatches[0]
 
         def mism(c):
-            try:
-                r = plugin.impl(c)
-            except BaseException as ex:  # pylint: disable=broad-except
-                r = {"out": {"exception": type(ex).__name__}}
+            r = guarded_impl(plugin, c)
             mo = _canon_model(plugin, run_model(binary, [_encode(plugin, c, r)])[0])
             return canon(r.get("out")) != canon(mo)
 
         small = shrink(cases[i], mism)
-        try:
-            r = plugin.impl(small)
-        except BaseException as ex:  # pylint: disable=broad-except
-            r = {"out": {"exception": type(ex).__name__}, "exception": str(ex)}
+        r = guarded_impl(plugin, small)
         mo = _canon_model(plugin, run_model(binary, [_encode(plugin, small, r)])[0])
         broken_tie.append(
             (
